@@ -51,6 +51,10 @@ pub struct Rng {
 }
 
 impl Rng {
+    /// First state word (used as a seed carrier).
+    pub fn s0(&self) -> u64 {
+        self.s[0]
+    }
     pub fn new(seed: u64) -> Self {
         let mut x = seed;
         let s = [
@@ -200,6 +204,13 @@ pub struct Ctx {
     pub abs: Vec<Vec<f64>>,
     pub abs_period: usize,
     pub log: LogHash,
+    /// logical position of each simulated task in the tree of parallel-iterator items:
+    /// task id -> stack of path hashes (maintained by sim-rayon)
+    pub paths: std::collections::HashMap<usize, Vec<u64>>,
+    /// parallel-iterator calls made so far under a path (gives every call a stable id)
+    pub path_calls: std::collections::HashMap<u64, u64>,
+    /// random draws made so far under a path
+    pub path_draws: std::collections::HashMap<u64, u64>,
     // ---- reach counters (measured, reported in evidence) ----
     pub n_rng: u64,
     pub n_rng_adversarial: u64,
@@ -230,6 +241,9 @@ impl Ctx {
             abs: Vec::new(),
             abs_period: 6,
             log: LogHash::default(),
+            paths: std::collections::HashMap::new(),
+            path_calls: std::collections::HashMap::new(),
+            path_draws: std::collections::HashMap::new(),
             n_rng: 0,
             n_rng_adversarial: 0,
             n_par_calls: 0,
@@ -244,10 +258,24 @@ impl Ctx {
         }
     }
 
-    /// Next outcome for a random draw. Called only by sim-rand.
-    pub fn next_outcome(&mut self) -> Outcome {
-        let n = self.n_rng;
+    pub fn current_path(&self, task: usize) -> u64 {
+        self.paths.get(&task).and_then(|v| v.last().copied()).unwrap_or(0)
+    }
+
+    /// Next outcome for a random draw made by simulated task `task`. Called only by sim-rand.
+    ///
+    /// Stream outcomes are keyed by the LOGICAL position of the drawing code (the path of
+    /// parallel-iterator items it runs under) and the number of draws made there so far, not by
+    /// the global draw order: the random outcomes a given strategy / item sees do not change with
+    /// the schedule unless the code's own behaviour does.
+    pub fn next_outcome(&mut self, task: usize) -> Outcome {
         self.n_rng += 1;
+        let path = self.current_path(task);
+        let k = {
+            let e = self.path_draws.entry(path).or_insert(0);
+            *e += 1;
+            *e - 1
+        };
         let o = match &mut self.rng {
             RngPlan::List { items, pos } => {
                 let o = if *pos < items.len() { items[*pos] } else { Outcome::U(0.5) };
@@ -255,20 +283,23 @@ impl Ctx {
                 o
             }
             RngPlan::Stream { rng, adversarial } => {
-                let u = rng.unit();
-                let adv = *adversarial > 0.0 && rng.unit() < *adversarial;
+                // `rng` is only the seed carrier here: one derived generator per (path, draw index)
+                let base = rng.s0();
+                let mut r = Rng::new(mix(&[base, path, k]));
+                let u = r.unit();
+                let adv = *adversarial > 0.0 && r.unit() < *adversarial;
                 if !adv {
                     Outcome::U(u)
                 } else {
                     let kinds = if self.abs.is_empty() { 3 } else { 5 };
-                    match rng.below(kinds) {
+                    match r.below(kinds) {
                         0 => Outcome::Low,
                         1 => Outcome::HighMinus,
                         2 => Outcome::U(self.rng_prev_u),
                         _ => {
-                            let k = rng.below(self.abs.len());
-                            let i = (n as usize) % self.abs_period.max(1);
-                            match self.abs[k].get(i) {
+                            let which = r.below(self.abs.len());
+                            let i = (k as usize) % self.abs_period.max(1);
+                            match self.abs[which].get(i) {
                                 Some(v) => Outcome::Abs(*v),
                                 None => Outcome::U(u),
                             }
